@@ -1542,8 +1542,9 @@ err_sm:
                      buf);
         if (buf != err)
             strophe_free(conn->ctx, buf);
-        /* Don't disable for <failure> cases, they're no hard errors */
-        conn->sm_state->sm_enabled = bind != NULL;
+        /* SM is not active (anymore). In <failed> cases it is enabled
+         * again by `_sm_enable()` once the resource has been bound. */
+        conn->sm_state->sm_enabled = 0;
     }
     return 0;
 }
